@@ -227,10 +227,10 @@ check("C06",
       engine="zoo", design="3/C06")
 
 check("C02",
-      passes=[dict(name="C02", src=["harness/C02.cpp"], shared=ZOO, deps=ZOO_DEPS, variant="fast", shards={"quick": 12, "thorough": 12})],
+      passes=[dict(name="C02", src=["harness/C02.cpp"] + ENV, shared=ZOO, deps=ZOO_DEPS, variant="fast", shards={"quick": 12, "thorough": 12})],
       rule="the complete product factory row (one per factory overload of form_factory, attr_factory, capture_spec_factory, "
            "type_factory, name_factory, expr_factory, dir_factory, stmt_factory, Lexicon, Scope/Region/Udt declare_*, Enum, Class, Block, "
-           "Parameter_list, Mapping, Module) x 12 operand rotations x optional parts supplied / not supplied x 4 histories (fresh Lexicon; "
+           "Parameter_list, Mapping, Module) x 12 operand rotations (each under one of four heap-address personalities: malloc, ascending, descending, alternating) x optional parts supplied / not supplied x 4 histories (fresh Lexicon; "
            "after 1000 unrelated constructions; after the whole table was built once; every node re-read after the table was rebuilt "
            "11 times with all other rotations in units of their own on the same Lexicon); each documented accessor (primitive and named "
            "alias) must return exactly the argument given (identity for nodes, value for enumerators/qualifiers/positions/strings), "
@@ -245,8 +245,8 @@ check("C02",
       engine="zoo", design="3/C02")
 
 check("C09",
-      passes=[dict(name="C09", src=["harness/C09.cpp"], shared=ZOO, deps=ZOO_DEPS, variant="fast", shards={"quick": 12, "thorough": 16})],
-      rule="(1) every factory row x 12 operand rotations x type supplied / not supplied against the row's type rule: fixed "
+      passes=[dict(name="C09", src=["harness/C09.cpp"] + ENV, shared=ZOO, deps=ZOO_DEPS, variant="fast", shards={"quick": 12, "thorough": 16})],
+      rule="(1) every factory row x 12 operand rotations (each under one of four heap-address personalities) x type supplied / not supplied against the row's type rule: fixed "
            "(void, bool, typename, class/union/enum/namespace, decltype(nullptr)), given, absent (logic_error), borrowed (same node as the "
            "designated sub-node's type, or both refuse with logic_error), and type() of every node re-read after the table was rebuilt "
            "with all 11 other rotations on the same Lexicon; (2) EVERY addition sequence of length <= 5 (quick) / <= 7 "
